@@ -76,6 +76,7 @@ typedef struct qgen {
 	int suspend_depth_max;
 	int width_pct;       // chance that a concurrent queue gets a small explicit width
 	int use_main;        // include the main queue, drained by sim thread 0
+	int main_tree;       // queues may target the main queue; any item outside that tree may dispatch_sync into it
 	int specific;        // set queue-specific keys
 	int blockobj;        // barrier items may be DISPATCH_BLOCK_BARRIER block objects
 } qgen;
